@@ -844,6 +844,30 @@ func (p *prepared) truth(sc *ck.Script, hist []ck.Op, final ck.Op, scriptPath st
 var gcSucc = map[int][]int{4: {3}, 5: {3, 4}, 6: {3, 5}, 7: {3, 1}} // config, layers, subject
 var gcSubject = map[int]int{5: 4, 6: 5}
 
+// gcEntries: the links that keep content alive during a Delete cascade: config and layers, NOT the
+// subject field (a referrer does not keep its subject alive, C09 heldBySurvivor)
+var gcEntries = map[int][]int{4: {3}, 5: {3}, 6: {3}, 7: {3, 1}}
+
+func closureVia(edges map[int][]int, roots []int, present map[int]bool) map[int]bool {
+	live := map[int]bool{}
+	var visit func(int)
+	visit = func(x int) {
+		if live[x] {
+			return
+		}
+		live[x] = true
+		if present[x] {
+			for _, y := range edges[x] {
+				visit(y)
+			}
+		}
+	}
+	for _, r := range roots {
+		visit(r)
+	}
+	return live
+}
+
 func closure(roots []int, present map[int]bool) map[int]bool {
 	live := map[int]bool{}
 	var visit func(int)
@@ -930,7 +954,15 @@ func refCheck(sc *ck.Script, before, after *sim) []failure {
 		for _, b := range after.saved {
 			roots = append(roots, b)
 		}
-		for id := range closure(roots, before.blobs) {
+		// what a tagged manifest still reaches once the target is gone, through the links that
+		// count for a cascade (not through the deleted node, not through subject fields)
+		present := map[int]bool{}
+		for id := range before.blobs {
+			if id != o.Blob {
+				present[id] = true
+			}
+		}
+		for id := range closureVia(gcEntries, roots, present) {
 			if id != o.Blob && before.blobs[id] && !after.blobs[id] {
 				add("cascade-removed-live", "Delete(%d) with AutoGC removed blob %d, which a tagged manifest still reaches", o.Blob, id)
 			}
